@@ -5,6 +5,7 @@ import ast
 
 from engine.cfg import CFG, normalise_compare, atoms
 from engine.model import src, stmt_key, dotted
+from engine import pat
 from engine.util import own_nodes, calls_with_nodes, where, with_exprs
 
 RULES = {
@@ -57,12 +58,12 @@ def run(model, rep, tier):
         rep.check(bool(ss) and bool(ws) and all(cfgs.dominated_by_set(w.id, ss) for w in ws), "R-08.3", f.qualname, where(f, f.node), "_set_section() precedes the size-tracked write",
                   "the section is not advanced before the tracked write: on TooBig `r.section` still names the previous section and TC is decided wrongly", stmt="section-before-write")
     # back-patches write exactly the region they seek to
-    ts = model.func(f"{REN}._temporarily_seek_to")
+    ts = pat.canon_func(model.func(f"{REN}._temporarily_seek_to"), ["__current = self.output.tell()"])
     t = " ".join(src(ts.node).split())
     rep.check("current = self.output.tell()" in t and "finally: self.output.seek(current)" in t, "R-08.1", ts.qualname, where(ts, ts.node), "position restored in finally", "_temporarily_seek_to does not restore the position", stmt="restore")
 
     # ---------------------------------------------------------------- R-08.2
-    tr = model.func(f"{REN}._track_size")
+    tr = pat.canon_func(model.func(f"{REN}._track_size"), ["__start = self.output.tell()"])
     cfg = CFG(tr.node, implicit_exc=False)
     ys = [n for n in cfg.nodes if n.ast is not None and any(isinstance(e, ast.Yield) for e in own_nodes(n.ast))]
     st = [n for n in cfg.nodes if isinstance(n.ast, ast.Assign) and src(n.ast) == "start = self.output.tell()"]
@@ -73,7 +74,7 @@ def run(model, rep, tier):
         and cfg.edge_dominated(rs[0].id, {(tt[0].id, "t")}) and cfg.dominated_by_set(tt[0].id, [ys[0].id])
     rep.check(okk, "R-08.2", tr.qualname, where(tr, tr.node), "start taken before the body; after it `tell() > max_size` => _rollback(start) then TooBig",
               "_track_size no longer (records the start, compares tell() > max_size after the body, rolls back to start, raises TooBig)", stmt="track-shape")
-    ro = model.func(f"{REN}._rollback")
+    ro = pat.canon_func(model.func(f"{REN}._rollback"), ["__keys_to_delete = []", "for (__k, __v) in self.compress.items():", "for __k in __keys_to_delete:\n    del self.compress[__k]"])
     t = " ".join(src(ro.node).split())
     rep.check("self.output.seek(where) self.output.truncate()" in t, "R-08.2", ro.qualname, where(ro, ro.node), "buffer truncated at the rollback point", "buffer is not truncated at the rollback point", stmt="truncate")
     cmp_ = [n for n in ast.walk(ro.node) if isinstance(n, ast.If) and len(atoms(normalise_compare(n.test))) == 1 and "where" in (atoms(normalise_compare(n.test))[0][2], atoms(normalise_compare(n.test))[0][0])]
@@ -89,7 +90,7 @@ def run(model, rep, tier):
               "all entries are examined, matching ones deleted after the scan", "_rollback no longer scans the whole table", stmt="scan-all")
 
     # ---------------------------------------------------------------- R-08.3
-    tw = model.func("dns.message.Message.to_wire")
+    tw = pat.canon_func(model.func("dns.message.Message.to_wire"), ["__r = dns.renderer.Renderer(...)", "__opt_reserve = self._compute_opt_reserve()", "__tsig_reserve = self._compute_tsig_reserve()"])
     cfg = CFG(tw.node, implicit_exc=False)
     cn = {}
     for (n, c) in calls_with_nodes(cfg):
@@ -128,7 +129,7 @@ def run(model, rep, tier):
     rep.check("self.max_size += self.reserved self.reserved = 0" in t, "R-08.3", rl.qualname, where(rl, rl.node), "release returns exactly what was reserved", "release bookkeeping changed", stmt="release-shape")
 
     # ---------------------------------------------------------------- R-08.4
-    ao = model.func(f"{REN}.add_opt")
+    ao = pat.canon_func(model.func(f"{REN}.add_opt"), ["__size_without_padding = self.output.tell() + opt_size + tsig_size\n__remainder = __size_without_padding % pad"])
     defs = {}
     for n in ast.walk(ao.node):
         if isinstance(n, ast.Assign) and isinstance(n.targets[0], ast.Name):
@@ -142,11 +143,11 @@ def run(model, rep, tier):
     rep.check("if remainder: pad = b'\\x00' * (pad - remainder) else: pad = b''" in t, "R-08.4", ao.qualname, where(ao, ao.node), "pad = block - remainder octets, none when already aligned", "pad length formula changed", stmt="pad-length")
     rep.check("self.was_padded = True" in t and "dns.edns.GenericOption(dns.edns.OptionType.PADDING, pad)" in t, "R-08.4", ao.qualname, where(ao, ao.node), "padding option appended and was_padded recorded",
               "padding option / was_padded flag no longer set", stmt="pad-option")
-    co = model.func("dns.message.Message._compute_opt_reserve")
+    co = pat.canon_func(model.func("dns.message.Message._compute_opt_reserve"), ["__size = 11", "__wire = __option.to_wire()"])
     t = " ".join(src(co.node).split())
     rep.check("size = 11" in t and "size += len(wire) + 4" in t and "if self.pad:" in t and t.count("size += 4") == 1, "R-08.4", co.qualname, where(co, co.node),
               "OPT reserve = 11 + sum(option + 4) + 4 for the padding option header", "OPT reserve no longer accounts for the padding option header", stmt="opt-reserve")
-    ct = model.func("dns.message.Message._compute_tsig_reserve")
+    ct = pat.canon_func(model.func("dns.message.Message._compute_tsig_reserve"), ["__f = io.BytesIO()"])
     t = " ".join(src(ct.node).split())
     rep.check("self.tsig.to_wire(f)" in t and "return len(f.getvalue())" in t, "R-08.4", ct.qualname, where(ct, ct.node), "TSIG reserve = uncompressed size of the TSIG RR", "TSIG reserve is no longer the uncompressed size", stmt="tsig-reserve")
     oc = [c for c in ast.walk(tw.node) if isinstance(c, ast.Call) and src(c.func) == "r.add_opt"]
@@ -154,7 +155,7 @@ def run(model, rep, tier):
               "add_opt is not given (pad, opt_reserve, tsig_reserve)", stmt="add-opt-args")
 
     # ---------------------------------------------------------------- R-08.5
-    wt = model.func(f"{REN}._write_tsig")
+    wt = pat.canon_func(model.func(f"{REN}._write_tsig"), ["__compress = self.compress"])
     cfg2 = CFG(wt.node, implicit_exc=False)
     tests = [n for n in cfg2.nodes if n.kind == "test" and atoms(normalise_compare(n.ast.test)) == [("self.was_padded", "truthy", "")]]
     cd = [n for n in cfg2.nodes if isinstance(n.ast, ast.Assign) and src(n.ast.targets[0]) == "compress"]
